@@ -264,6 +264,47 @@ def shuffle_presentation(fg, rng, orders=None):
     return ("p", pl, info, name, [(a, shuffle_presentation(c, rng, orders)) for a, c in acts], oid, p)
 
 
+def partial_names(fg, rng):
+    """the same file with the name of an infoset written at only one of its nodes (the first, the last or some other
+    one in the order of the file) and left empty at the others - as hand-written files do"""
+    count = {}
+
+    def scan(n):
+        if n[0] == "t":
+            return
+        if n[0] == "c":
+            for _, _, c in n[2]:
+                scan(c)
+            return
+        _, pl, info, name, acts, _, _ = n
+        if name is not None:
+            count[(pl, info)] = count.get((pl, info), 0) + 1
+        for _, c in acts:
+            scan(c)
+    scan(fg)
+    keep = {}
+    for key, k in count.items():
+        if k >= 2 and rng.random() < 0.6:
+            keep[key] = rng.choice([0, 0, k - 1, rng.randrange(k)])
+    seen = {}
+
+    def go(n):
+        if n[0] == "t":
+            return n
+        if n[0] == "c":
+            _, info, acts, oid, p = n
+            return ("c", info, [(a, pr, go(c)) for a, pr, c in acts], oid, p)
+        _, pl, info, name, acts, oid, p = n
+        key = (pl, info)
+        if name is not None and key in keep:
+            idx = seen.get(key, 0)
+            seen[key] = idx + 1
+            if idx != keep[key]:
+                name = None
+        return ("p", pl, info, name, [(a, go(c)) for a, c in acts], oid, p)
+    return go(fg)
+
+
 # ---------------------------------------------------------------- file-level semantics
 def fg_final_names(fg):
     """infoset number -> printed name per player: the given name, else the number as a string"""
